@@ -82,12 +82,13 @@ def check_clock(db, rep):
         # second call builds a fresh driver and rebinds to its buffers
         hooks.driver = []
         it.call(fE, this, [Poly.var('dt2')])
-        allocs = [e for e in hooks.driver if e[0] == 'alloc']
+        applied = [e for e in hooks.driver if e[0] in ('apply', 'apply_fixed_step')]
         t2 = sm.field(this, 't')
-        if len(allocs) == 1 and isinstance(t2, Poly) and t2.equals(it.to_poly(t0) + dt + Poly.var('dt2')):
+        # one integration per call (whether the driver is new or kept and re-armed is C04's concern: D.driver)
+        if len(applied) == 1 and isinstance(t2, Poly) and t2.equals(it.to_poly(t0) + dt + Poly.var('dt2')):
             rep.ok('D.clock')
         else:
-            rep.fail('D.clock', site + '/second', unit.loc(fE), 'a fresh driver per call and t = t_ini + dt + dt2', 'drivers=%d t=%s' % (len(allocs), t2), fE['name'])
+            rep.fail('D.clock', site + '/second', unit.loc(fE), 'one integration per call and t = t_ini + dt + dt2', 'integrations=%d t=%s' % (len(applied), t2), fE['name'])
         yt, dy = hooks.stage_buffers
         le = c04.layout_of(this, 'dstate', cfg[0], cfg[2], cfg[3])
         if all(r[0] is dy for row, sc in le for r in row):
@@ -127,7 +128,7 @@ def check_clock(db, rep):
         it.call(db.one('SQuIDS', 'squids::SQuIDS::Set_' + name, 1), this, [1])
         hooks.driver = []
         it.call(fE, this, [Poly.var('dt')])
-        if any(e[0] == 'alloc' for e in hooks.driver):
+        if any(e[0] in ('apply', 'apply_fixed_step') for e in hooks.driver):
             rep.ok('D.clock')
         else:
             rep.fail('D.clock', 'Evolve/only-%s' % name, unit.loc(fE), 'numerical evolution when %s is enabled' % name, 'no integration performed', fE['name'])
